@@ -231,19 +231,22 @@ impl<T: Write + Seek> ShapeWriter<T> {
             return Ok(());
         }
 
-        if self.header.bbox.max.m == f64::NEG_INFINITY && self.header.bbox.min.m == f64::INFINITY {
-            self.header.bbox.max.m = 0.0;
-            self.header.bbox.min.m = 0.0;
+        // Ranges no shape has grown yet are written as 0, but stay as they are
+        // for the shapes still to come
+        let mut header = self.header;
+        if header.bbox.max.m == f64::NEG_INFINITY && header.bbox.min.m == f64::INFINITY {
+            header.bbox.max.m = 0.0;
+            header.bbox.min.m = 0.0;
         }
 
-        if self.header.bbox.max.z == f64::NEG_INFINITY && self.header.bbox.min.z == f64::INFINITY {
-            self.header.bbox.max.z = 0.0;
-            self.header.bbox.min.z = 0.0;
+        if header.bbox.max.z == f64::NEG_INFINITY && header.bbox.min.z == f64::INFINITY {
+            header.bbox.max.z = 0.0;
+            header.bbox.min.z = 0.0;
         }
 
         self.repositioning_needed = true;
         self.shp_dest.seek(SeekFrom::Start(0))?;
-        self.header.write_to(&mut self.shp_dest)?;
+        header.write_to(&mut self.shp_dest)?;
         // Go back to where the next record goes. That is right behind the last
         // record, which is not necessarily the end of the destination
         // (it may hold older, longer content)
@@ -252,7 +255,7 @@ impl<T: Write + Seek> ShapeWriter<T> {
         self.shp_dest.flush()?;
 
         if let Some(shx_dest) = &mut self.shx_dest {
-            let mut shx_header = self.header;
+            let mut shx_header = header;
             shx_header.file_length = header::HEADER_SIZE / 2
                 + ((self.rec_num - 1) as i32 * 2 * size_of::<i32>() as i32 / 2);
             shx_dest.seek(SeekFrom::Start(0))?;
